@@ -54,6 +54,23 @@ def run(ctx):
         scenarios += [wrap_vector(v) for v in vecs]
         ncmds = len(vecs)
         scenarios += [wrap_vector(v) for v in big_requests()]
+        # vectors with a 64-bit edge value also against stores that hold something (the recording handler returns at once; a
+        # loop over the stored elements bounded only by the client's number would only run with a real store behind it)
+        nstore = 0
+        for v in vecs:
+            if v["st"] not in ("well", "other") or not any(a.get("big") for a in v["args"]):
+                continue
+            k1 = tok("key", "k1")
+            setup = {"Z": {"cls": "setup", "name": "ZADD", "args": [k1, dict(tok("int", ""), n=1), tok("key", "m1"), dict(tok("int", ""), n=2), tok("key", "m2")]},
+                     "L": {"cls": "setup", "name": "RPUSH", "args": [k1, tok("str", "v1"), tok("str", "v2")]},
+                     "R": {"cls": "setup", "name": "RPUSH", "args": [k1, tok("str", "v1"), tok("str", "v2")]}}.get(v["name"][0])
+            for handler in ("ref", "example"):
+                sc = wrap_vector(v)
+                sc["handler"] = handler
+                if setup:
+                    sc["steps"][0]["reqs"].insert(0, setup)
+                scenarios.append(sc)
+                nstore += 1
     ctx.stage("generate")
     accepted, scs, lines = connlib.run_scenarios(ctx, scenarios, "c03")
     groups = connlib.report(ctx, accepted, scs, lines, None)
